@@ -148,6 +148,28 @@ theorem c05_table_members_unique : nodupNat (dataMems particleSize table) = true
 theorem c05_table_elems :
     elemSizesOK table rowElems = true ∧ (rowElems.all (fun p => elemOK p.2)) = true := by decide +kernel
 
+/-- **a field header without payload clears the array** (incremental archive snapshots encode an array that
+    existed in the first snapshot and has VANISHED since — reset_integrator(), a removal that resets IAS15 — as a
+    header of size 0): reading it onto the already populated simulation replaces the stale array by an empty one,
+    sets its element counter to 0 and raises no warning; afterwards the writer emits nothing for that row -/
+theorem c05_vanished_field_clears {psz : Nat} {sp : Special} {tbl : List Desc} (cur : Sim) (w : List Warning)
+    (d : Desc) (hl : lookup tbl d.id = some d) (hd : d.dtype = .pointer ∨ d.dtype = .pointerAligned) :
+    let r := applyField psz sp tbl (cur, w) (d.id, [])
+    r.1.heap d.mem = some [] ∧ counter r.1 d = 0 ∧ r.2 = w ∧ encodeField psz r.1 d = [] := by
+  intro r
+  have hr : r = ((cur.setHeap d.mem (some [])).setMem d.nMem (encLE 4 (countOf 0 d.elemSize)), w) := by
+    show applyField psz sp tbl (cur, w) (d.id, []) = _
+    rw [applyField_pointer cur w (d.id, []) d hl hd]
+    simp
+  have hc : counter r.1 d = 0 := by
+    rw [hr]
+    simp [counter, Sim.setMem, Sim.setHeap, countOf, encLE, leNat]
+  refine ⟨?_, hc, ?_, ?_⟩
+  · rw [hr]; simp [Sim.setMem, Sim.setHeap]
+  · rw [hr]
+  · rw [encodeField_pointer r.1 d hd]
+    simp [fieldSize, hc]
+
 /-! ### callbacks: the reminder to re-attach them -/
 
 /-- **the warning is raised exactly when a flagged callback was set at save time** (any table, any simulation):
